@@ -106,13 +106,35 @@ func bigConst(v ssa.Value) (hi, lo bool) {
 // guardKinds inspects all comparisons in fn that mention one of the operands and an extreme constant, whose
 // "overflow" edge cannot reach the arithmetic instruction.
 func overflowGuards(fn *ssa.Function, arith ssa.Instruction, operands []ssa.Value) (hi, lo bool) {
+	// the values an operand can be: itself, and for a phi (delta := 1; if withAmount { delta = amount }) its incoming
+	// values other than small constants
+	opVals := map[ssa.Value]bool{}
+	var expand func(v ssa.Value, d int)
+	expand = func(v ssa.Value, d int) {
+		if opVals[v] || d > 4 {
+			return
+		}
+		opVals[v] = true
+		switch x := v.(type) {
+		case *ssa.Phi:
+			for _, e := range x.Edges {
+				if h, l := bigConst(e); h || l {
+					continue
+				}
+				expand(e, d+1)
+			}
+		case *ssa.Convert:
+			expand(x.X, d+1)
+		}
+	}
+	for _, o := range operands {
+		expand(o, 0)
+	}
 	isOperand := func(v ssa.Value) bool {
 		f := false
 		backslice(v, func(x ssa.Value) bool {
-			for _, o := range operands {
-				if x == o {
-					f = true
-				}
+			if opVals[x] {
+				f = true
 			}
 			_, isCall := x.(*ssa.Call)
 			return !f && !isCall
